@@ -156,15 +156,10 @@ Untimely(o, e, d, k, now) ==   \* nobody can be fetching a key whose marker is l
   LET m == o.mark[<<d, k>>] IN
   o.cur[<<d, k>>] = e /\ m.live /\ m.kind \in {"hit", "hfp"} /\ now <= m.until
 
-(* the request that publishes on entry e: it has its upstream answer and works on e *)
-Publisher(o, e) ==
-  LET P == {f \in DOMAIN o.req : o.req[f].ent = e /\ o.req[f].phase = "fetched"} IN
-  IF P = {} THEN 0 ELSE CHOOSE f \in P : TRUE
+(* st: the cache of the entry has a persistent store; r: the publishing request *)
+Wanted(r, st) == [set |-> st, by |-> r, ended |-> FALSE, tried |-> FALSE]
 
-(* st: the cache of the entry has a persistent store *)
-Wanted(o, e, st) == [set |-> st, by |-> Publisher(o, e), ended |-> FALSE, tried |-> FALSE]
-
-OPublish(o0, e, d, k, v, now, ttl, st) ==
+OPublish(o0, r, e, d, k, v, now, ttl, st) ==
   LET o == GC(o0)
       o1 == [o EXCEPT !.ver[v].obtained = now, !.ver[v].stored = TRUE, !.ver[v].ttl = ttl,
                       !.req = SetWait(o, Parked(o, e), v, now),
@@ -172,18 +167,18 @@ OPublish(o0, e, d, k, v, now, ttl, st) ==
   IN IF o.cur[<<d, k>>] = e
      THEN [o1 EXCEPT !.mark[<<d, k>>] =
                         [kind |-> "hit", at |-> now, until |-> now + ttl, ver |-> v, live |-> TRUE],
-                     !.want[<<d, k>>] = Wanted(o, e, st)]
+                     !.want[<<d, k>>] = Wanted(r, st)]
      ELSE o1    \* an orphan (purged/evicted meanwhile): nobody can look it up any more
 
 (* entry object e of <<d,k>> was published as hit-for-pass at `now` for eff seconds *)
-OHfp(o0, e, d, k, now, eff, st) ==
+OHfp(o0, r, e, d, k, now, eff, st) ==
   LET o == GC(o0)
       o1 == [o EXCEPT !.req = SetWait(o, Parked(o, e), 0, now),
                       !.badpub = IF Untimely(o, e, d, k, now) THEN @ + 1 ELSE @]
   IN IF o.cur[<<d, k>>] = e
      THEN [o1 EXCEPT !.mark[<<d, k>>] =
                         [kind |-> "hfp", at |-> now, until |-> now + eff, ver |-> 0, live |-> TRUE],
-                     !.want[<<d, k>>] = Wanted(o, e, st)]
+                     !.want[<<d, k>>] = Wanted(r, st)]
      ELSE o1
 
 (* the store of a cache was handed a record for key k (whatever it then does with it) *)
